@@ -47,6 +47,8 @@ bool CPPPreprocessor::is_manifest_defined(const std::string &manifest_name) cons
 //@extract src/cppparser/cppPreprocessor.cxx CPPPreprocessor::scan_quoted
 //@extract src/cppparser/cppPreprocessor.cxx CPPPreprocessor::scan_raw
 //@extract src/cppparser/cppPreprocessor.cxx CPPPreprocessor::skip_digit_separator
+//@extract src/cppparser/cppPreprocessor.cxx CPPPreprocessor::skip_c_comment
+//@extract src/cppparser/cppPreprocessor.cxx CPPPreprocessor::skip_cpp_comment
 //@extract src/cppparser/cppPreprocessor.cxx CPPPreprocessor::expand_defined_function
 std::ostream &indent(std::ostream &out, int indent_level) { return out; }
 int CPPPreprocessor::get_file_depth() const { return 0; }
@@ -110,6 +112,32 @@ void h_skip_digit_separator() {
   CPPPreprocessor *pp = make_pp();
   int r = pp->skip_digit_separator(pp->peek());
   OBL(r == -1 || (r >= 0 && r <= 255), "C15.skip_digit_separator: returns a character or EOF for any input");
+  VU_REACHED();
+}
+
+// ---- comments: /* ... is skipped up to and including the first */ (or to the end of input, with a warning); // ... up
+// to the end of the line; in both the saving and the non-saving variant, for any bytes, within the input
+void h_skip_c_comment() {
+  make_input(); __CPROVER_assume(vin_in_len >= 1);
+  CPPPreprocessor *pp = make_pp();
+  pp->_save_comments = nondet_bool(); pp->_comments._n = 0; pp->_comments._trunc = false;
+  g_pos = 1; g_warnings = 0;
+  int r = pp->skip_c_comment(vin_in[0]);
+  int end = -1;                              // index of the '/' that closes the comment
+  for (int k = 0; k + 1 < VU_IN_MAX; k++) if (end < 0 && k + 1 < vin_in_len && vin_in[k] == '*' && vin_in[k + 1] == '/') end = k + 1;
+  if (end >= 0) OBL(r == (end + 1 < vin_in_len ? (int)vin_in[end + 1] : EOF) && g_pos == (end + 2 < vin_in_len ? end + 2 : vin_in_len) && g_warnings == 0, "C15.skip_c_comment: the comment ends at the first */ and the character behind it is returned");
+  else OBL(r == EOF && g_warnings == 1, "C15.skip_c_comment: an unterminated comment runs to the end of the input and is diagnosed");
+  VU_REACHED();
+}
+void h_skip_cpp_comment() {
+  make_input(); __CPROVER_assume(vin_in_len >= 1);
+  CPPPreprocessor *pp = make_pp();
+  pp->_save_comments = nondet_bool(); pp->_comments._n = 0; pp->_comments._trunc = false; pp->_last_cpp_comment = false;
+  g_pos = 1;
+  int r = pp->skip_cpp_comment(vin_in[0]);
+  int nl = -1;
+  for (int k = 0; k < VU_IN_MAX; k++) if (nl < 0 && k < vin_in_len && vin_in[k] == '\n') nl = k;
+  OBL(r == (nl >= 0 ? '\n' : EOF) && g_pos == (nl >= 0 ? nl + 1 : vin_in_len), "C15.skip_cpp_comment: the comment ends at the first newline (returned) or at the end of the input");
   VU_REACHED();
 }
 
